@@ -19,7 +19,8 @@
 (* recorded (or held); the tracked set is                                     *)
 (* exactly the transactions of the blocks the node had plus the recorded      *)
 (* ones; not done is only acceptable while something is still missing and the *)
-(* peers have not just served the real ancestry Need times in a row.          *)
+(* peers have not just answered Need requests in a row honestly (whatever the *)
+(* client asked for - a client that asks for the wrong heights is not excused).*)
 EXTENDS Backfill, TLC, Json, IOUtils
 
 VARIABLES l,        \* next line of Trace
@@ -66,9 +67,12 @@ TReset == Ev("reset") /\ Load(T)
 TResp ==
   /\ Ev("resp") /\ UNCHANGED txs
   /\ LET r == RespOf(T.blocks) IN
-     /\ streak' = IF r # <<>> /\ r = Honest(T.h) THEN streak + 1 ELSE 0
+     /\ streak' = IF r = Honest(T.h) THEN streak + 1 ELSE 0     \* whatever was asked, the peer answered it honestly
      /\ IF cdone THEN UNCHANGED vars
         ELSE RoundBody(r) /\ UNCHANGED <<inflight, faults>>
+
+(* the sampler had no peer to offer *)
+TNoPeer == Ev("nopeer") /\ streak' = 0 /\ UNCHANGED <<vars, txs>>
 
 TUpdate ==
   /\ Ev("update") /\ UNCHANGED <<txs, streak>>
@@ -86,7 +90,7 @@ TEnd ==
   /\ ~T.done => (~NothingLeftToFetch /\ streak < Need)
   /\ SetOf(T.tracked) = SetOf(T.universe) \cap Expected
 
-TraceNext == TReset \/ TResp \/ TUpdate \/ TSave \/ TEnd
+TraceNext == TReset \/ TResp \/ TNoPeer \/ TUpdate \/ TSave \/ TEnd
 TraceSpec == TraceInit /\ [][TraceNext]_tvars
 
 HWM      == TLCSet(1, IF TLCGet(1) > l - 1 THEN TLCGet(1) ELSE l - 1)
